@@ -90,7 +90,7 @@ def decide_and_report(prop, tier, seed, runs, undecided, known, index, wall, ext
                 undecided.append('%s: a proof aid of %s that updates ghost state has no place on this tree (%s): its clauses are no longer tied to the code' % (r.name, lg['fn'], lg['aid']))
         for sb in getattr(r.unit, 'skipped_blocks', []) or []:
             if prop in sb['props'] or not sb['props']:
-                undecided.append('%s: block %s does not compile on this tree (a name its signature returns or renames is gone) and was left out' % (r.name, sb['block']))
+                undecided.append('%s: block %s %s and was left out' % (r.name, sb['block'], ('is not found on this tree (%s)' % sb['why']) if sb.get('why') else 'does not compile on this tree (a name its signature returns or renames is gone)'))
         if r.frontend_errors:
             undecided.append('%s: verifier front-end error (code left the supported subset?):\n%s' % (r.name, r.frontend_errors[0]))
         if r.resource_errors:
